@@ -528,8 +528,13 @@ func importedFrom(importer *fileInfo, err error) error {
 	return err
 }
 
-var importStmtPrefix = []byte("import ")
+var importKeyword = []byte("import")
 
+// extractImports returns the import statements of a file: the lines that the lexer reads as import statements. These
+// are the lines made of the keyword import followed by a blank or a tab (IMPORT: 'import' [ \t]+), indented or not,
+// that come before the first application; only blank lines and comments can be among them. Once an application has
+// started import is no longer a keyword, so a later line that happens to begin with that word (an application named
+// "import Gateway", a statement "import the records") is not an import statement and is left alone.
 func extractImports(filename string, content []byte) (importsInput bytes.Buffer) {
 	// non-sysl specs remote reference file fetching is not yet supported.
 	if !strings.Contains(filename, syslExt) {
@@ -542,9 +547,16 @@ func extractImports(filename string, content []byte) (importsInput bytes.Buffer)
 	scanner.Buffer(nil, len(content)+1)
 	scanner.Split(bufio.ScanLines)
 	for scanner.Scan() {
-		if bytes.HasPrefix(scanner.Bytes(), importStmtPrefix) {
-			importsInput.Write(scanner.Bytes())
+		line := bytes.TrimLeft(scanner.Bytes(), " \t")
+		switch {
+		case len(bytes.TrimSpace(line)) == 0 || line[0] == '#':
+			// blank line or comment
+		case len(line) > len(importKeyword) && bytes.HasPrefix(line, importKeyword) &&
+			(line[len(importKeyword)] == ' ' || line[len(importKeyword)] == '\t'):
+			importsInput.Write(line)
 			importsInput.WriteByte('\n')
+		default:
+			return
 		}
 	}
 
